@@ -85,6 +85,7 @@ type regHandler struct {
 type node struct {
 	hs        *regHandler // Handlers on this node
 	params    []pathParam // path parameters for the handlers
+	paramsSet bool        // Flag telling if params has been set, as params may be nil
 	nodes     map[string]*node
 	param     *node
 	wild      *node // Wild card node
@@ -596,8 +597,9 @@ func isValidPath(p string) bool {
 }
 
 func setAndValidateParams(n *node, params []pathParam) {
-	if n.params == nil {
+	if !n.paramsSet {
 		n.params = params
+		n.paramsSet = true
 		return
 	}
 
